@@ -75,7 +75,13 @@ def across(hist, row, name, si, sj):
             labels.add("other-instance")
     if obs[lo].get("type") != obs[hi].get("type"):
         labels.add("type-flip")
-    return "+".join(sorted(labels)) if labels else "nothing"
+    if obs[lo].get("type") != "suffrage":
+        labels -= {"suffrage-state-hash", "membership"}      # the consensus nodes mean nothing to other limiters
+    # the key names one class: the first of these that happened (the text of the violation lists them all)
+    for k in ("type-flip", "suffrage-state-hash", "membership", "equal-rule-set", "other-rule-set", "AddNode", "other-instance"):
+        if k in labels:
+            return k, "+".join(sorted(labels))
+    return "nothing", "nothing"
 
 
 def stronger_reading(line):
@@ -101,22 +107,38 @@ def stronger_reading(line):
 
 
 def validate(ctx, lines, timeout):
-    path = os.path.join(ctx.work, "trace%d.ndjson" % (getattr(ctx, "_ntlc", 0) + 1))
-    core.write_ndjson(path, [{"src": ln["src"], "insts": ln["insts"]} for ln in lines])
-    accepted, rr, hw = ctx.tlc_validate_trace("RateLimitTrace", "RateLimitTrace.cfg", path, timeout=timeout)
-    if hw is not None or (not accepted and not rr.mismatches()):
-        raise core.MachineryError("validation of the recorded executions did not consume the trace (hw=%s):\n%s" % (hw, rr.out[-3000:]))
-    out = []
-    for (cls, line, rest) in rr.mismatches():
-        x, si, sj = [int(v) for v in rest.split(",")]
-        out.append((cls, line - 1, x - 1, si, sj))
-    return out
+    """RateLimitTrace.tla on the recorded executions (by chunks side by side when there are many):
+    [(class, line index, instance index, first step, last step)] of the executions that break the bound"""
+    chunk = max(4000, -(-len(lines) // 4))
+    chunks = [lines[i:i + chunk] for i in range(0, len(lines), chunk)]
+
+    def one(c, k):
+        path = os.path.join(c.work, "trace.ndjson")
+        core.write_ndjson(path, [{"src": ln["src"], "insts": ln["insts"]} for ln in chunks[k]])
+        accepted, rr, hw = c.tlc_validate_trace("RateLimitTrace", "RateLimitTrace.cfg", path, timeout=timeout)
+        if hw is not None or (not accepted and not rr.mismatches()):
+            raise core.MachineryError("validation of the recorded executions did not consume the trace (hw=%s):\n%s" % (hw, rr.out[-3000:]))
+        out = []
+        for (cls, line, rest) in rr.mismatches():
+            x, si, sj = [int(v) for v in rest.split(",")]
+            out.append((cls, k * chunk + line - 1, x - 1, si, sj))
+        return out
+
+    ctx._nval = getattr(ctx, "_nval", 0) + 1
+    subs = [subctx(ctx, "v%d_%d" % (ctx._nval, k)) for k in range(len(chunks))]
+    with concurrent.futures.ThreadPoolExecutor(max_workers=4) as ex:
+        outs = list(ex.map(one, subs, range(len(chunks))))
+    for c in subs:
+        ctx.states += c.states
+        ctx.transitions += c.transitions
+        ctx.tlc_cmds += c.tlc_cmds
+    return sorted(v for o in outs for v in o)
 
 
 def subctx(ctx, k):
     """a view of ctx for one TLC run that goes on at the same time as others: own work directory and counters"""
     c = copy.copy(ctx)
-    c.work = os.path.join(ctx.work, "p%d" % k)
+    c.work = os.path.join(ctx.work, "p%s" % k)
     os.makedirs(c.work)
     c.states = c.transitions = 0
     c.tlc_cmds = []
@@ -270,11 +292,12 @@ def run(ctx):
                 name, [a["a"] for a in hist]), {"kind": "enforcement-history", "history": hist, "observed": row["obs"]})
             continue
         win = [r for r in s if si <= r[5] <= sj]
-        ctx.violation("enforcement(window-bound;refill-across=%s)" % across(hist, row, name, si, sj),
+        cls, happened = across(hist, row, name, si, sj)
+        ctx.violation("enforcement(window-bound;refill-across=%s)" % cls,
                       "%s: %d requests allowed from step %d to step %d within %d us while the limiter reported the rule %d/%.6fs all "
-                      "the time (burst + rate x window = %.4f); history: %s" % (
+                      "the time (burst + rate x window = %.4f); between the two requests across which the bucket was refilled: %s; history: %s" % (
                           name, sum(r[4] for r in win), si, sj, (win[-1][3] - win[0][2]) * UNIT // 1000, win[0][0], win[0][1] * UNIT / 1e9,
-                          win[0][0] + win[0][0] * (win[-1][3] - win[0][2]) / win[0][1],
+                          win[0][0] + win[0][0] * (win[-1][3] - win[0][2]) / win[0][1], happened,
                           [(a["a"], a.get("addr"), a.get("c"), a.get("members")) for a in hist[:sj + 1]]),
                       {"kind": "enforcement-history", "history": hist, "observed": row["obs"], "instance": name, "window": [si, sj]})
     phase["validate"] = round(time.time() - t0, 1)
@@ -325,7 +348,7 @@ def replay(ctx, path):
     if case.get("kind") == "enforcement-history":
         ln = trace_line(hist, row)
         for (cls, li, x, si, sj) in validate(ctx, [ln], 600):
-            key = "enforcement(%s)" % cls if cls != "window-bound" else "enforcement(window-bound;refill-across=%s)" % across(hist, row, ln["names"][x], si, sj)
+            key = "enforcement(%s)" % cls if cls != "window-bound" else "enforcement(window-bound;refill-across=%s)" % across(hist, row, ln["names"][x], si, sj)[0]
             ctx.violation(key, "%s: more requests allowed from step %d to step %d than burst + rate x window of the rule in force; calls %s" % (
                 ln["names"][x], si, sj, ln["insts"][x]), {"kind": "enforcement-history", "history": hist, "observed": row["obs"]})
         return
